@@ -143,7 +143,7 @@ def gen_registry(rng, max_classes=8, focus=None, salt=0):
             while r.bases[vp[i]] and rng.random() < 0.6:
                 vp[i] = rng.choice(r.bases[vp[i]])
         m = dict(arity=ar, nparams=nparams, positions=positions, kinds=kinds, vp=vp, defs=[],
-                 api=rng.choice(["container", "container", "container", "macro", "class"] if focus == "C03" else ["macro", "macro", "class", "container"]))
+                 api=rng.choice(["container", "container", "class", "class", "macro"] if focus == "C03" else ["macro", "macro", "class", "container"]))
         nd = rng.randint(0, 5)
         for _ in range(nd):
             d = []
@@ -154,6 +154,7 @@ def gen_registry(rng, max_classes=8, focus=None, salt=0):
                 m["defs"].append(d)
         r.methods.append(m)
     r.salt = salt
+    r.focus = focus
     if len(r.methods) >= 2 and rng.random() < (0.6 if focus == "C01" else 0.3):
         # two methods with the same name, signature and policy, declared with the macros in nested
         # scopes (the emitter gives them the same name): each must keep its own definitions
@@ -410,10 +411,13 @@ def emit(r, rng, name, policy, reg_style, flavours, leave_out=None):
                 body = probe + ["    g_next_ptr = (void*)next_%d_%d;" % (mi, di), "    return %d;" % (100 * mi + di)]
                 L.append("static int def_%d_%d(%s) {\n%s\n}" % (mi, di, plist, "\n".join(body)))
                 L.append("static M%d::add_function<def_%d_%d> reg_%d_%d(&next_%d_%d);" % (mi, mi, di, mi, di, mi, di))
-                if rng.random() < 0.15:
+                if rng.random() < (0.6 if getattr(r, "focus", None) == "C03" else 0.15):
                     # a second registration object for the same definition (e.g. the same header in two
                     # translation units): the definition is registered once
-                    L.append("static M%d::add_function<def_%d_%d> reg_again_%d_%d(&next_%d_%d);" % (mi, mi, di, mi, di, mi, di))
+                    if rng.random() < 0.5:
+                        L.append("static M%d::add_function<def_%d_%d> reg_again_%d_%d(&next_%d_%d);" % (mi, mi, di, mi, di, mi, di))
+                    else:  # ...this time without saying where next goes: the first registration stands
+                        L.append("static M%d::add_function<def_%d_%d> reg_again_%d_%d;" % (mi, mi, di, mi, di))
             else:  # definition container: next from next<> / use_next<>, a next member of its own, or none
                 if cont_flavour in ("next<>", "use_next<>"):
                     L.append("struct cont_%d_%d : M%d::%s<cont_%d_%d> {" % (mi, di, mi, cont_flavour[:-2], mi, di))
@@ -545,7 +549,7 @@ def emit(r, rng, name, policy, reg_style, flavours, leave_out=None):
                             pre.append("        virtual_shared_ptr<%s%s> w_%d(so%d); virtual_shared_ptr<const %s%s> v_%d(w_%d);" % (cname(c), pa, vi, c, B, pa, vi, vi))
                         args.append("v_%d" % vi)
                     elif k in ("vp", "cvp"):
-                        how = rng.choice(["base-ref", "exact", "copy", "conv", "final_virtual_ptr"] + (["final"] if c == m["vp"][vi] else []) + ([] if pol else ["deduction-guide"]))
+                        how = rng.choice(["base-ref", "exact", "copy", "conv", "final_virtual_ptr"] + ["final"] * (3 if getattr(r, "focus", None) == "C09" else 1) + ([] if pol else ["deduction-guide"]))
                         if how == "final_virtual_ptr":
                             pre.append("        auto f_%d = final_virtual_ptr%s(o%d); virtual_ptr<%s%s> v_%d(f_%d);" % (vi, ("<%s>" % pol) if pol else "", c, B, pa, vi, vi))
                         elif how == "deduction-guide":
@@ -555,6 +559,7 @@ def emit(r, rng, name, policy, reg_style, flavours, leave_out=None):
                         elif how == "exact":
                             pre.append("        virtual_ptr<%s%s> v_%d(o%d);" % (B, pa, vi, c))
                         elif how == "final":
+                            # (the object's static type is its exact class, possibly derived from the pointer's)
                             pre.append("        auto v_%d = virtual_ptr<%s%s>::final(o%d);" % (vi, B, pa, c))
                         elif how == "copy":
                             pre.append("        virtual_ptr<%s%s> w_%d(static_cast<%s&>(o%d)); virtual_ptr<%s%s> v_%d(w_%d);" % (B, pa, vi, B, c, B, pa, vi, vi))
@@ -587,6 +592,9 @@ def emit(r, rng, name, policy, reg_style, flavours, leave_out=None):
             if s[0] == "DEF":
                 d = s[1]
                 main.append('        CHECK(st == 0 && g_ran_method == %d && g_ran_def == %d && res == %d, "C01:wrong-definition", "%s: ran m%%d/def%%d status %%d, expected def %d", g_ran_method, g_ran_def, st);' % (mi, d, 100 * mi + d, tdesc, d))
+                if any(k in ("vp", "cvp", "vsp", "cvsp", "vpc", "vspc") for k in m["kinds"]):
+                    # the same statement, as C09 puts it: what a plain reference would run (the oracle's answer)
+                    main.append('        CHECK(st == 0 && g_ran_method == %d && g_ran_def == %d, "C09:call-through-virtual_ptr-runs-another-definition", "%s: ran m%%d/def%%d status %%d, a plain reference runs def %d", g_ran_method, g_ran_def, st);' % (mi, d, tdesc, d))
                 # the definition saw the caller's objects, viewed as its classes
                 for i in range(ar):
                     main.append('        CHECK(st != 0 || g_seen[%d] == (const void*)static_cast<%s*>(%s), "C11:wrong-object:%s:generated-hierarchy", "%s: virtual argument %d is not the caller\'s object viewed as %s");' % (i, cname(m["defs"][d][i]), objexpr[i], m["kinds"][i], tdesc, i, cname(m["defs"][d][i])))
@@ -866,6 +874,8 @@ def programs(tier, seed, focus=None):
     pols = ["default", "default", "map", "indirect", "throw", "debug", "custom", "deferred"]
     if focus == "C10":
         pols = ["custom", "deferred"]
+    if focus == "C09":
+        pols = ["indirect", "default", "indirect", "map", "indirect", "debug", "throw", "indirect"]
     for k in range(n):
         r = gen_registry(rng, 8 if tier == "quick" else 10, focus, k)
         policy = pols[k % len(pols)]
